@@ -54,6 +54,14 @@ fn main() {
             let code = runner::check(prop, tier, seed, &sigs);
             std::process::exit(code);
         }
+        "fuzz-note" => {
+            // xvf fuzz-note <Cxx> <plan> <execs> <corpus_files> <wall_s>: record a libFuzzer campaign in the evidence file
+            if args.len() < 7 {
+                usage();
+            }
+            let code = runner::fuzz_note(&args[2], &args[3], args[4].parse().unwrap_or(0), args[5].parse().unwrap_or(0), args[6].parse().unwrap_or(0.0));
+            std::process::exit(code);
+        }
         "replay" => {
             if args.len() < 4 {
                 usage();
